@@ -33,6 +33,7 @@ TRUSTED = [
 F1 = "C16-F1-carried-sort-not-visible"
 F2 = "C16-F2-carried-sort-other-pipeline"
 F3 = "C16-F3-lookup-cid-panic"
+F4 = "C16-F4-duplicate-column-instance"
 
 MISSING_ID_PANIC = re.compile(r"no entry found for key|cannot find cid|called `Option::unwrap\(\)` on a `None` value")
 ID_LOOKUP_FILES = ("sql/pq/context.rs", "sql/pq/anchor.rs", "sql/pq/positional_mapping.rs", "semantic/lowering.rs")
@@ -50,25 +51,61 @@ def relation_defs_at(q, w):
     return c16_wf.relation_defs(r)
 
 
+def dup_column_tables(q):
+    """cids defined inside tables whose declared columns repeat a RelationColumn (create_a_table_instance
+    de-duplicates them with .unique(), so an instance has fewer columns than the table's closing Select)"""
+    out = set()
+    for t in q[1]:
+        cols = t[3][2]
+        if len(set(cols)) != len(cols):
+            out |= set(c16_wf.relation_defs(t[3]))
+    return out
+
+
 def classify_diags(q, diags):
     """known-finding id explaining ALL diagnostics of this RQ, or None"""
-    if not diags or not all(c16_wf.lax_diag(d) for d in diags):
+    if not diags:
+        return None
+    lax = [d for d in diags if c16_wf.lax_diag(d)]
+    rest = [d for d in diags if not c16_wf.lax_diag(d)]
+    if rest:
+        # F4: an id of a sub-pipeline whose declared columns repeat a name escapes un-redirected into the pipeline
+        # that instantiates it
+        leaked = dup_column_tables(q)
+        if all(d[0] == "DNotVisible" and d[3] in leaked and d[3] not in relation_defs_at(q, d[1]) for d in rest):
+            return F4
         return None
     # every diagnostic is a carried sort (Take.sort / Window.sort) naming a defined but invisible id
-    other = any(d[3] not in relation_defs_at(q, d[1]) for d in diags)
+    other = any(d[3] not in relation_defs_at(q, d[1]) for d in lax)
     return F2 if other else F1
 
 
-def has_multi_input_let(src):
-    for m in re.finditer(r"(?ms)^let\s+\w+\s*=\s*\((.*?)^(?=let |from )", src + "\nfrom "):
-        if re.search(r"\b(join|append)\b", m.group(1)):
+def has_multi_input_relation(src):
+    """a join / append inside parentheses: a relation with several inputs that is instantiated as one input
+    (let-table `let x = (from a | join b ..)` or aliased sub-pipeline `from x = (from a | join b ..)`)"""
+    depth = 0
+    i = 0
+    instr = None
+    while i < len(src):
+        ch = src[i]
+        if instr:
+            if ch == instr:
+                instr = None
+        elif ch in "\"'":
+            instr = ch
+        elif ch in "([{":
+            depth += 1
+        elif ch in ")]}":
+            depth -= 1
+        elif depth >= 1 and (src.startswith("join", i) or src.startswith("append", i)) and (i == 0 or not (src[i - 1].isalnum() or src[i - 1] == "_")):
             return True
+        i += 1
     return False
 
 
 def classify_lowerer_failure(case):
     p = case.get("panic") or {}
-    if "cannot find cid by id=" in p.get("msg", "") and "lowering.rs" in p.get("loc", "") and has_multi_input_let(case["program"]):
+    if "cannot find cid by id=" in p.get("msg", "") and "lowering.rs" in p.get("loc", "") and has_multi_input_relation(case["program"]):
         return F3
     return None
 
